@@ -21,16 +21,16 @@ def _sm(rule, probes, quick=15000, thorough=400000):
     rule = rule + "; in a fifth of the plain-StateMachine runs a second live machine of the same class is driven by its own history between the first one's calls and must stay untouched"
     return {
         "engine": "sm", "level": "exploration", "rule": rule,
-        "level_text": "seeded search over control-loop histories, clock schedules and faults (dropped engage(), external stops, dashboard duration edits, restarts, slow state functions) of generated machines run on the real code; every step compared with an executable reference model written from the property text, plus model-independent history invariants; sampling, not proof",
-        "level_note": "trusted: WPILib HAL simulation clock and local ntcore; the reference model and invariants in /verif/models; generated machines cover <=6 states / <=60 iterations (quick tier), <=8 states / <=200 iterations (thorough tier), one in-state action per state-function call, at most two live machines of a class",
+        "level_text": "seeded search over control-loop histories, clock schedules and faults (dropped engage(), external stops, dashboard duration edits incl. negative and NaN values, restarts, slow state functions, state functions that raise and are swallowed by the caller, pauses of days) of generated machines run on the real code; every step compared with an executable reference model written from the property text, plus model-independent history invariants; sampling, not proof",
+        "level_note": "trusted: WPILib HAL simulation clock and local ntcore; the reference model and invariants in /verif/models; generated machines cover <=6 states / <=60 iterations (quick tier), <=8 states / <=200 iterations (thorough tier), at most two in-state actions per state-function call, at most two live machines of a class",
         "quick": {"runs": quick, "wall_s": 150}, "thorough": {"runs": thorough, "wall_s": 1500},
         "probes_expected": probes,
         "state_measure": "abstract reference-model states (kind of current state, fresh, executing, request, asm flag) and (state, op, state) transitions, hashed",
         "real_vs_stub": REAL_STUB_SM,
         "assumptions": [
             "single caller thread (the class documents itself as not thread-safe)",
-            "one in-state action per state-function call; state functions do not raise; external next_state() not generated",
-            "class layouts: single, base+leaf, base+mixin+leaf, diamond; redefinitions may change must_finish/next_state (not the duration); VERBOSE_LOGGING on in a quarter of the runs; an object of the base class may exist first; a dashboard may write the current_state topic",
+            "one or two in-state actions per state-function call (next_state / next_state_now, for autonomous machines also done()); a state function of a plain machine does nothing more once its own machine stopped in the middle of the call; the default state performs no actions; a state function may raise after acting (the caller swallows it and, for a plain machine, calls engage() again before the next iteration); next_state()/next_state_now()/engage() are not called from outside resp. inside state functions",
+            "class layouts: single, base+leaf, base+mixin+leaf, diamond; redefinitions may change must_finish/next_state (not the duration) and move the first-state marker; positional-only parameters; VERBOSE_LOGGING on in a quarter of the runs; an object of the base class may exist first; a dashboard may write the current_state topic",
             "clock = WPILib HAL simulation clock; half of the runs on a 1/64 s grid with exact float comparison, the rest at 1 us with a 1e-9 s tolerance and a 1e-7 s dead band at expiry instants",
         ],
     }
@@ -66,7 +66,7 @@ def _robot(rule, probes, level_text, quick=8000, thorough=200000, level="explora
         "probes_expected": probes,
         "state_measure": "(mode shown in /robot/mode, callback role) pairs and their successions along the expected log, hashed",
         "real_vs_stub": REAL_STUB_ROBOT,
-        "assumptions": ["single robot thread; driver-station packets carry one of disabled/teleop/auto/test (never auto+test together)",
+        "assumptions": ["single robot thread (in a tenth of the runs an earlier robot object was constructed and robotInit()-ed in the same process before the one observed); driver-station packets carry one of disabled/teleop/auto/test (never auto+test together)",
                         "events inside feedback getters are limited to raising", "autonomous mode chosen by DEFAULT flag, the 'Auto Selector' string or a dashboard chooser selection (effective at the next SmartDashboard update in robotPeriodic)"],
     }
 
@@ -97,7 +97,7 @@ PROPS["C15"] = {
     "state_measure": "abstract model states (kind of current state, fresh, enabled) and (state, op, state) transitions, hashed",
     "real_vs_stub": {"real": ["robotpy_ext.autonomous.stateful_autonomous from the working tree", "ntcore local instance (SmartDashboard table)", "HAL simulated clock"],
                      "simulated": ["the autonomous loop supplying tm", "dashboard edits", "state-function bodies (generated)"]},
-    "assumptions": ["single thread", "one in-state action per call", "tm strictly increasing inside a period"],
+    "assumptions": ["single thread", "one in-state action per call; a state function may raise after acting (the caller swallows it)", "tm strictly increasing inside a period"],
 }
 
 ENGINE_TEXT["timers"] = "NotifierDelay on the real HAL notifier with the wake-up source replaced by the scheduler; Toggle/ButtonDebouncer/PeriodicFilter/SimpleWatchdog under seeded (advance, input, accessor) histories on the paused clock"
@@ -105,7 +105,7 @@ PROPS["C16"] = {
     "engine": "timers", "level": "exploration",
     "rule": "seeded periods (>= 1 ms, incl. values whose microsecond conversion truncates) and loop-body durations shorter than / equal to / several times the period, late wake-ups, free()/with-exit/double free at random points followed by more wait() calls; non-trivial = an overrun followed by a wait that sleeps again (catch-up observed); distinct = distinct sequence of (op, sleep/exact/overrun class)",
     "level_text": "seeded search over loop-timing schedules on the real HAL notifier; every wait() checked against the t0 + k*P grid exactly in integer microseconds; sampling, not proof",
-    "level_note": "trusted: WPILib HAL simulation notifier implementation; the period is read at the HAL's 1 us resolution (any fixed integer p with |p - P*1e6| < 1); one NotifierDelay alive at a time (the previously released one stays referenced and may still be waited on)",
+    "level_note": "trusted: WPILib HAL simulation notifier implementation; the period is read at the HAL's 1 us resolution (any fixed integer p with |p - P*1e6| < 1); at most two NotifierDelays alive at a time (a released one stays referenced and may still be waited on); clock up to 126 days from boot, up to 2500 waits on one delay, loop stalls up to a day",
     "quick": {"runs": 15000, "wall_s": 150}, "thorough": {"runs": 400000, "wall_s": 1500},
     "probes_expected": ["wait_slept", "wait_exact", "wait_overrun", "caught_up_after_overrun", "wait_after_free", "freed_by_exit", "freed_by_free_twice", "entered_later", "stale_wait_on_released_instance"],
     "state_measure": "(op, wait class) pairs and their successions, hashed",
@@ -124,7 +124,7 @@ PROPS["C19"] = {
                         "watchdog_expired_True", "watchdog_expired_False"],
     "state_measure": "(input, outcome) pairs and their successions, hashed",
     "real_vs_stub": {"real": ["robotpy_ext.control.toggle.Toggle", "robotpy_ext.control.button_debouncer.ButtonDebouncer", "robotpy_ext.misc.periodic_filter.PeriodicFilter", "robotpy_ext.misc.simple_watchdog.SimpleWatchdog", "HAL simulated clock", "logging"],
-                     "simulated": ["joystick (plain object with getRawButton)", "time.monotonic (shim onto the simulated clock)", "callers and their timing"]},
+                     "simulated": ["joystick (plain object with getRawButton; in some runs it samples the same Toggle while being read)", "time.monotonic (shim onto the simulated clock)", "callers and their timing"]},
     "assumptions": ["single thread", "ButtonDebouncer: before its first True the 'last True' is taken as boot (clock 0)", "SimpleWatchdog checked only after its first reset/enable/setTimeout"],
 }
 
